@@ -88,6 +88,16 @@ def generate(tier, rng):
         ops += [["dset", w, "y", 2]] if variant != 2 else [["init", "h2"], ["dset", "h2", "y", 2]]
         ops += [["dset", "h1", "z", 3], ["spset", w, "b", 1]]
         yield {"ops": ops, "nproj": 2}
+    # clear / reset through an INDEPENDENT handle while another handle holds document data: the other handle
+    # reads the emptied document from the file (no stale data), links in the job directory are gone as well
+    for op2 in ("reset", "clear"):
+        for how in ("open", "openid", "pickle"):
+            ops = [["open", "h1", 0, sp], ["dset", "h1", "x", 1], ["put", "h1", "f.txt", "A"],
+                   ["putlink", "h1", "latest", "f.txt", "A"]]
+            ops.append({"open": ["open", "h2", 0, sp], "openid": ["openid", "h2", 0, W.ref_id(sp)],
+                        "pickle": ["pickle", "h1", "h2"]}[how])
+            ops += [[op2, "h2"], ["dset", "h1", "z", 3], ["dset", "h2", "y", 2], [op2, "h1"], ["dset", "h2", "w", 4]]
+            yield {"ops": ops, "nproj": 2}
     for i in range(n_random):
         yield {"ops": W.gen_ops(rng, length, rich=(i % 3 == 0), allow_plant=(i % 4 == 0)), "nproj": 2}
 
